@@ -205,8 +205,14 @@ def _reach(res):
                 continue
             seen.add(id(o))
             found.append(o)
-            todo += list(o.eContents)
+            todo += _children(o)
     return found
+
+
+def _children(o):
+    # eContents follows a set of references: the order between features is made reproducible here (replays);
+    # within one feature the collection's own order is kept (the sort is stable)
+    return sorted(o.eContents, key=lambda c: c.eContainmentFeature().name)
 
 
 def _check_resolution(res, objs, label, only=None, ids=False):
@@ -224,8 +230,9 @@ def _check_resolution(res, objs, label, only=None, ids=False):
     n = 0
     for o in (objs if only is None else only):
         frag = frags[id(o)]
-        # the fragment is what follows the '#' of a URI (ecore.EModelElement.eURIFragment() includes the separator)
-        keys = [('fragment', frag[1:] if frag.startswith('#') else frag)]
+        # eURIFragment() of a metamodel element includes the '#' separator: resolved as given, and as the bare
+        # fragment (what follows the '#', which is how pyecore itself consumes it when decoding references)
+        keys = [('fragment', frag)] + ([('fragment', frag[1:])] if frag.startswith('#') else [])
         if ids and getattr(o, '_internal_id', None):
             keys.append(('id', o._internal_id))
         for what, key in keys:
@@ -363,7 +370,7 @@ def load_edit_scenarios(ctx, out):
                 cov['resolutions'] += n
                 if bad:
                     sig['clause'] = bad[0]
-                    out.fail(sig, f'{fmt} document loaded, then {hist[-1] if len(hist) > 1 else "nothing"}: {bad[1]}', case())
+                    out.fail(dict(sig), f'{fmt} document loaded, then {hist[-1] if len(hist) > 1 else "nothing"}: {bad[1]}', case())
                 return bad is None
 
             def candidate(owner, f):
@@ -531,7 +538,7 @@ def metamodel_edit_scenarios(ctx, out):
         return None
 
     def siblings(parent):
-        return [c for c in parent.eContents if kind_of(c)]
+        return [c for c in _children(parent) if kind_of(c)]
 
     def free_names(parent, kind):
         used = {c.name for c in siblings(parent)}
@@ -642,7 +649,7 @@ def metamodel_edit_scenarios(ctx, out):
                 if bad:
                     sig['clause'] = bad[0]
                     last = [h for h in hist[1:] if h[0] != 'check'][-1]
-                    out.fail(sig, f'metamodel ({hist[0][1]}) after {last}: {bad[1]}', case())
+                    out.fail(dict(sig), f'metamodel ({hist[0][1]}) after {last}: {bad[1]}', case())
                 return bad is None
 
             # fragments resolved BEFORE any edit (all of them, some of them, or by name look-ups only)
@@ -903,7 +910,7 @@ def _reach_from(o):
     while todo:
         x = todo.pop(0)
         found.append(x)
-        todo += list(x.eContents)
+        todo += _children(x)
     return found
 
 
